@@ -41,7 +41,7 @@ CHECKS = {
 	'C03': ('exploration', 'runtime monitor: parent-pointer taxonomy model vs classify() on transient ORM objects (exhaustive lineages x thresholds x report flags x distance grid), random forests, end-to-end query()/gambit query on synthetic databases; monotonicity on real outputs',
 	        'Every lineage up to depth 5 (thorough 6) with thresholds in {None,.25,.5,.75} and all report-flag assignments is classified over a grid that contains every threshold and its float32 neighbours; closest match, prediction, primary match, next taxon, report taxon and monotonicity are compared with the model; random forests (depth up to 8+, ties for the minimum) and real databases with distances exactly on thresholds are sampled through the API and the CLI.',
 	        'Thresholds are float32-representable; any genome at the minimum distance is accepted as closest (tie rule is C09).', 'DESIGN.md 3/C03'),
-	'C04': ('exploration', 'runtime monitor: pairing invariant ids[sig_indices[i]] == id(genomes[i]) + per-genome distance oracle on databases with permuted / padded signature files for all four id attributes; several databases built from one long-lived genome-set object with committed identifier edits in between; negative cases must fail to load',
+	'C04': ('exploration', 'runtime monitor: pairing invariant ids[sig_indices[i]] == id(genomes[i]) + per-genome distance oracle on databases with permuted / padded signature files for all four id attributes; several databases built from one long-lived genome-set object with committed identifier edits and a refused build in between; negative cases must fail to load',
 	        'Synthetic databases with pairwise distinct signatures are written for each identifier attribute with sorted / reversed / random signature order, interleaved unrelated signatures and different value dtypes; after loading, the pairing is asserted and every distance reported through query() (all genomes requested, several chunk sizes) and the CLI archive is compared with the exact distance to that genome\'s own signature. Dropping each signature in turn, renaming an id, missing / misspelt / NULL / wrong-kind identifiers and 11 bad directory layouts must raise.',
 	        'Duplicate ids in a signature file are outside the domain.', 'DESIGN.md 3/C04'),
 	'C09': ('exploration', 'runtime monitor: (distance, reference order) oracle on every closest-genomes list from query() and the CLI, run in fresh processes under 4 NumPy CPU-dispatch settings x thread counts x chunk sizes with cross-setting digest comparison; one caller-owned parameter object re-used across databases of increasing size',
@@ -53,7 +53,7 @@ CHECKS = {
 	'C08': ('exploration', 'runtime monitor: oracle row per genome + metamorphic equality with the alone-run over batches, orderings, input channels, -c, progress and formats of gambit query; query() chunk sizes; console-script slice',
 	        'Sequence worlds (reference genomes mutated along a tree, signatures from the reference definition) are queried in batches of 1..30 files in several orders through positional arguments, list files (relative / absolute, blank lines), gzip copies and signature files made by signatures create or by the oracle, with -c 1..16, progress on/off, csv/json/archive and --strict; row count, order, labels (basename minus .gz minus FASTA extension, or stored id) and row content are compared with the oracle and with the row the genome gets alone.',
 	        'Path fields / timestamps are not genome content; tied closest genomes resolved by reference order.', 'DESIGN.md 3/C08'),
-	'C11': ('exploration', 'runtime monitor: results objects from real queries exported as csv/json/archive, parsed back with stdlib csv/json and the archive reader, compared field by field with plain attribute access, with exporters carrying other format options alive in the same process; known-finding classifier by mechanism',
+	'C11': ('exploration', 'runtime monitor: results objects from real queries exported as csv/json/archive, parsed back with stdlib csv/json and the archive reader, compared field by field with plain attribute access, with exporters carrying other format options alive in the same process and one exporter object re-used for every result set; known-finding classifier by mechanism',
 	        'Strict and non-strict result sets (no prediction, unreportable taxon, failed strict results, warnings, items without source file, primary != closest) with hostile labels / taxon names / genome descriptions are exported to paths and file objects, pretty or not, and through gambit query -f; CSV must parse back with a standard reader and every cell equal the attribute, JSON must be valid and carry label / reported / next taxon / closest genomes, the archive read back must equal the original incl. every distance bit, warnings, errors, params.',
 	        'Known finding csv-bare-cr (bare CR written unquoted by the Python 3.12 csv module with LF terminator) is keyed by mechanism; every other CSV mismatch stays a violation.', 'DESIGN.md 3/C11'),
 	'C14': ('exploration', 'runtime monitor: exit status + output inspection for every command / option combination bringing two signature sources together with mismatching parameters (different genomes as well as the same genomes under two parameter sets); oracle distances under the expected parameters for matching / inferred ones',
